@@ -193,3 +193,74 @@ func NewFakeChannel() (bus.Channel, *FakeEndPoint) {
 	c.SetAuthenticated()
 	return c, e
 }
+
+// HelperImpl is an object a client hosts itself and lends to a Desk.
+type HelperImpl struct {
+	Name string
+	mu   sync.Mutex
+	Exec map[uint64]int
+	// Gate, if set, is called inside Assist before returning (may block).
+	Gate func(token uint64)
+}
+
+// NewHelper returns a helper implementation.
+func NewHelper(name string) *HelperImpl { return &HelperImpl{Name: name, Exec: map[uint64]int{}} }
+
+// Activate does nothing.
+func (h *HelperImpl) Activate(bus.Activation, probe.HelperSignalHelper) error { return nil }
+
+// OnTerminate does nothing.
+func (h *HelperImpl) OnTerminate() {}
+
+// HF is the function a helper computes.
+func HF(name string, token uint64, arg string) string { return name + "|" + F(token, arg) }
+
+// Assist is the helper's method.
+func (h *HelperImpl) Assist(token uint64, arg string) (string, error) {
+	h.mu.Lock()
+	h.Exec[token]++
+	g := h.Gate
+	h.mu.Unlock()
+	if g != nil {
+		g(token)
+	}
+	return HF(h.Name, token, arg), nil
+}
+
+// ExecCount returns how many times token was executed.
+func (h *HelperImpl) ExecCount(token uint64) int {
+	h.mu.Lock()
+	defer h.mu.Unlock()
+	return h.Exec[token]
+}
+
+// DeskImpl keeps the helper it was lent and relays calls to it.
+type DeskImpl struct {
+	mu   sync.Mutex
+	kept probe.HelperProxy
+}
+
+// Activate does nothing.
+func (d *DeskImpl) Activate(bus.Activation, probe.DeskSignalHelper) error { return nil }
+
+// OnTerminate does nothing.
+func (d *DeskImpl) OnTerminate() {}
+
+// Keep stores the lent object.
+func (d *DeskImpl) Keep(h probe.HelperProxy) error {
+	d.mu.Lock()
+	d.kept = h
+	d.mu.Unlock()
+	return nil
+}
+
+// Relay calls the lent object and returns its answer.
+func (d *DeskImpl) Relay(token uint64, arg string) (string, error) {
+	d.mu.Lock()
+	h := d.kept
+	d.mu.Unlock()
+	if h == nil {
+		return "", fmt.Errorf("nothing kept")
+	}
+	return h.Assist(token, arg)
+}
